@@ -1,6 +1,7 @@
 package serialize
 
 import (
+	"fmt"
 	"github.com/kercylan98/vivid"
 	"github.com/kercylan98/vivid/internal/messages"
 )
@@ -17,6 +18,10 @@ func EncodeEnvelopWithRemoting(codec vivid.Codec, envelop vivid.Envelop) (data [
 	var writer = messages.NewWriterFromPool()
 	defer messages.ReleaseWriterToPool(writer)
 	if messageDesc.IsOutside() {
+		// 未注册的消息只能依赖 Codec；未配置 Codec（默认）时返回错误，而不是对 nil 接口发起调用
+		if codec == nil {
+			return nil, fmt.Errorf("message %T is not registered and no codec is configured", envelop.Message())
+		}
 		data, err = codec.Encode(envelop.Message())
 		if err != nil {
 			return nil, err
@@ -79,7 +84,11 @@ func DecodeEnvelopWithRemoting(codec vivid.Codec, data []byte) (
 			return
 		}
 	} else {
-		// 外部消息反序列化
+		// 外部消息反序列化：未配置 Codec（默认）时返回错误，而不是对 nil 接口发起调用
+		if codec == nil {
+			err = fmt.Errorf("message %q is not registered and no codec is configured", messageName)
+			return
+		}
 		messageInstance, err = codec.Decode(messageData)
 		if err != nil {
 			return
